@@ -429,6 +429,12 @@ def check_generic(prop, tier, cfgs, n_quick, n_thorough, sigfun, stages, level="
             tp = Program(len(progs), gen_mini.occurrence_table(), root, "table:occurrence")
             tp.port = None
             progs.append(tp)
+        if prop in ("C02", "C04", "C08", "C09"):
+            # declaration-order family: one fixed content in many declaration orders
+            for label, ss in gen_mini.order_family_programs(rng(prop, "order-family"), {"C02": 32}.get(prop, 16) if tier == "quick" else 600):
+                op = Program(len(progs), ss, root, label)
+                op.port = None
+                progs.append(op)
         progs = run_programs(progs, stages)
         evaluated, accepted, compiled = 0, 0, 0
         fps = set()
@@ -506,6 +512,10 @@ def check_generic(prop, tier, cfgs, n_quick, n_thorough, sigfun, stages, level="
             v.inconclusive = f"{len(incon)} of {len(progs)} programs inconclusive: {incon[0][1][:300]}"
         elif accepted < evaluated * 0.5:
             v.inconclusive = f"generator accepted only {accepted} of {evaluated} in-subset programs"
+        elif stages and prop != "C01" and compiled < accepted * 0.7:
+            # a program that does not compile is C01's finding; the later stages of this check had nothing to look at
+            v.inconclusive = (f"only {compiled} of {accepted} generated programs compiled (see C01): too few executions to "
+                              f"say anything about {prop}")
         v.finish(cov, assumptions=[
             "schema sets come from vf/gen.py (DESIGN §2 grammar), rendered by vf/render.py; expectations from vf/refmap.py",
             "rustc (stable, edition 2024) with --extern limited to yaserde, yaserde_derive, xml-rs, log, reqwest, tokio built from /repo/Cargo.lock",
@@ -583,7 +593,7 @@ def profiles(q):
                                    p_ref=0.5, p_ext=0.6, p_cross_file=0.15, elements_per_file=(1, 3), complex_per_file=(2, 4)),
         "ext-twin": gen.cfg_with(files=(2, 3), quarantine=q, p_ext=0.8, complex_per_file=(3, 5), simple_per_file=(0, 1), p_twin=1.0, own_ns_default=0.5,
                                  elements_per_file=(0, 2), p_cross_file=0.15),
-        "ns": gen.cfg_with(files=(2, 4), quarantine=q, adversarial_uris=True, nested_xmlns=0.4, complex_per_file=(1, 2),
+        "ns": gen.cfg_with(files=(3, 4), quarantine=q, adversarial_uris=True, nested_xmlns=0.5, p_prefix_clash=0.7, complex_per_file=(1, 2),
                            simple_per_file=(1, 2), elements_per_file=(0, 1), p_cross_file=0.8, default_ns_own=0.4),
         "ns-wsdl": gen.cfg_with(files=(2, 4), wsdl=True, quarantine=q, adversarial_uris=True, nested_xmlns=0.4, complex_per_file=(0, 1),
                                 simple_per_file=(0, 1), elements_per_file=(0, 1), ops=(1, 2), attr_named_simple=False, avoid_nested_same_name=True, p_cross_file=0.8),
